@@ -281,6 +281,9 @@ func ApplyReconciler(records []klog.Record, blocks []txt.Block, creators []recon
 }
 
 func (ctx *context) Now() gotime.Time {
+	if t, ok := verifNow(); ok {
+		return t
+	}
 	return gotime.Now()
 }
 
